@@ -10,7 +10,7 @@ Import ListNotations.
 Local Open Scope string_scope.
 Local Open Scope list_scope.
 From YP Require Import Base.Str Term.Term Term.Show Term.Fast Term.Dfast Unify.Unify Unify.Fast Unify.UnifyGen Unify.UnifyGenFast Lang.Ast Comp.IR
-  Comp.CompileBody Comp.CompileClause Sem.Machine Engine.GenMachine Engine.Restore Engine.RunGen Engine.IRMachine Engine.QueryFacts.
+  Comp.CompileBody Comp.CompileClause Sem.Machine Engine.GenMachine Engine.Restore Engine.RunGen Engine.IRMachine Engine.QueryFacts Sem.Native Engine.Refine Engine.RefineNative Engine.RefineExc Engine.RefineRaising.
 
 (* def pyp(x): for v in (atom('a'), atom('c')): for _ in unify(x, v): yield False *)
 Definition pyp_user (name : str) (args : list term) : option (code lx fr callp * fr) :=
@@ -21,9 +21,18 @@ Definition pyp_user (name : str) (args : list term) : option (code lx fr callp *
     | _ => None end
   else None.
 
+(* the same predicate as the machine code of its text over rows (RefineNative.pyrows), registered under the key 'pyp_1' *)
+Definition pyp_rows : list frow := [ {| r_vals := [TAtom (d "a")]; r_nv := 0 |}; {| r_vals := [TAtom (d "c")]; r_nv := 0 |} ].
+Definition pyp_fix (raises : bool) (name : str) (k : nat) : option ucode :=
+  if str_eqb name (d "pyp") && Nat.eqb k 1 then Some (pyrows pyp_rows raises) else None.
+Definition novar : str -> option ucode := fun _ => None.
+
 Definition facts_of (db : list (str * nat * list fact)) (name : str) (ar : nat) : list fact :=
   match find (fun e => str_eqb (fst (fst e)) name && Nat.eqb (snd (fst e)) ar) db with
   | Some e => snd e | None => [] end.
+
+Definition rows_of (db : list (str * nat * list fact)) (name : str) (ar : nat) : list frow :=
+  map (fun f : fact => {| r_vals := snd f; r_nv := fst f |}) (facts_of db name ar).
 
 Definition res_obs (r : GenMachine.res) : obs :=
   match r with RYield => otag "more" [] | RStop => otag "done" [] | RRaise => otag "raised" [] end.
@@ -49,8 +58,11 @@ Definition mkleaf_nc (x : lx) (h : heap) : leaf :=
   | XArrays xs ys => LGen (GArrFresh xs ys)
   | _ => mkleaf x h end.
 
+(* the machine is RefineNative.wprog: ALL of YP.query (dynamic facts, reserved names, registered Python predicate,
+   generator function, builtins) - the machine program of machine_refines_nquery *)
 Definition run_machine (fuel d : nat) (p : program) (db : list (str * nat * list fact)) (stk : list (term * term))
-    (name : str) (args : list term) (nq kmax k : nat) : obs :=
+    (name : str) (args : list term) (nq kmax k : nat) (pyraises : bool) : obs :=
+  let pyp_fix := pyp_fix pyraises in
   match compile_program p with
   | None => otag "stuck" []
   | Some ir =>
@@ -59,23 +71,23 @@ Definition run_machine (fuel d : nat) (p : program) (db : list (str * nat * list
       | Some None => otag "stack" []
       | Some (Some h0) =>
           let watch := args ++ map TVar (seq 0 nq) in
-          let q := m_query ir (facts_of db) pyp_user name args nq in
-          match m_nexts ir (facts_of db) pyp_user fuel d kmax h0 q with
+          let q := w_query ir (rows_of db) pyp_fix novar name args nq in
+          match w_nexts ir (rows_of db) pyp_fix novar fuel d kmax h0 q with
           | None => otag "oof" []
           | Some (hf, itf, ys, r) =>
               if (match r with
                   | RRaise =>
-                      match nexts mkleaf_nc lnext lclose (prog ir (facts_of db) pyp_user) f_nxt fuel d kmax h0 q with
+                      match nexts mkleaf_nc lnext lclose (wprog ir (rows_of db) pyp_fix novar) f_nxt fuel d kmax h0 q with
                       | Some (_, _, ys', RRaise) => negb (Nat.eqb (length ys') (length ys))
                       | _ => true end
                   | _ => false end)
               then otag "cyc" [] else
-              match m_nexts ir (facts_of db) pyp_user fuel d k h0 q with
+              match w_nexts ir (rows_of db) pyp_fix novar fuel d k h0 q with
               | None => otag "oof" []
               | Some (hk, itk, ysk, rk) =>
                   let fin (h : heap) := OL [onat (length h); snapshot_x h nq] in
                   otag "ok" [fin h0; OL (map (fun h => answer_obs h0 h watch) ys); res_obs r; fin hf;
-                             onat (length ysk); res_obs rk; fin (m_iclose hk itk);
+                             onat (length ysk); res_obs rk; fin (w_iclose hk itk);
                              fin (let '(ht, _, _) := ithrow lclose hk itk in ht)]
               end
           end
@@ -131,6 +143,76 @@ Definition refine_example_facts : bool :=
       match m_nexts ir (facts_of ex_db) (fun _ _ => None) 2000 20 9 [] (m_query ir (facts_of ex_db) (fun _ _ => None) (d "w") [TVar 0; TVar 1] 2) with
       | Some (hf, IDone, ys, RStop) =>
           Nat.eqb (length ys) 4 && Nat.eqb (length hf) 0 && negb (snd big) && Nat.eqb (length (fst big)) 4 &&
+          forallb (fun p => obs_eqb (OL (map (fun b => OL [onat (fst b); term_obs (snd b)]) (fst p)))
+                                    (OL (map (fun b => OL [onat (fst b); term_obs (snd b)]) (sto (snd p)))))
+                  (combine ys (fst big))
+      | _ => false
+      end
+  end.
+
+
+(* ---- a concrete instance of machine_refines_nquery / machine_exception_passthrough, evaluated:
+        t(X,Y) :- pyq(X), d0(Y).     d0(f(_)). d0([]).  are dynamic facts,
+        def pyq(x): for v in (a, c): for _ in unify_arrays([x],[v]): yield True     and then   raise E     (E = XPy 7) *)
+Definition ex_t : list clause :=
+  [ {| c_name := d "t"; c_args := [SVar (d "X"); SVar (d "Y")];
+       c_body := BAnd (BCall (d "pyq") [SVar (d "X")]) (BCall (d "d0") [SVar (d "Y")]) |} ].
+Definition ex_ufix (name : str) (k : nat) : option ucode :=
+  if str_eqb name (d "pyq") && Nat.eqb k 1 then Some (pyrows pyp_rows (is_some (Some 7))) else None.
+Definition ex_efix (name : str) (k : nat) : option NE.nfunE :=
+  if str_eqb name (d "pyq") && Nat.eqb k 1 then Some (pyrows_funE pyp_rows [true; true] (Some 7)) else None.
+Definition ex_evar : str -> option NE.nfunE := fun _ => None.
+
+(* the hypotheses of the theorems are inhabited: every entry of this table is realized by its machine code *)
+Lemma ex_table_ok ir dyn : forall name k, orealizes ir dyn ex_ufix novar (ex_ufix name k) (option_map NE.erf (ex_efix name k)).
+Proof.
+  intros name k. unfold ex_ufix, ex_efix. destruct (str_eqb name (d "pyq") && Nat.eqb k 1); cbn [option_map orealizes]; [|exact I].
+  apply pyrows_realizesE.
+Qed.
+Lemma ex_table_var_ok ir dyn : forall name, orealizes ir dyn ex_ufix novar (novar name) (option_map NE.erf (ex_evar name)).
+Proof. intros name. exact I. Qed.
+
+Definition refine_example_native : bool :=
+  match compile_program ex_t with
+  | None => false
+  | Some ir =>
+      let dyn := rows_of ex_db in
+      let big := NE.nqueryE 20 (mkwE ir ex_efix ex_evar dyn) (d "t") [TVar 0; TVar 1] (mkst [] 2) in
+      match w_nexts ir dyn ex_ufix novar 2000 20 9 [] (w_query ir dyn ex_ufix novar (d "t") [TVar 0; TVar 1] 2) with
+      | Some (hf, IDone, ys, RRaise) =>
+          Nat.eqb (length ys) 4 && Nat.eqb (length hf) 0 && Nat.eqb (length (fst big)) 4 &&
+          match snd big with Some (NE.XPy 7) => true | _ => false end &&
+          forallb (fun p => obs_eqb (OL (map (fun b => OL [onat (fst b); term_obs (snd b)]) (fst p)))
+                                    (OL (map (fun b => OL [onat (fst b); term_obs (snd b)]) (sto (snd p)))))
+                  (combine ys (fst big)) &&
+          match ys with
+          | h1 :: _ :: h3 :: _ => obs_eqb (term_obs (dfast h1 (TVar 0))) (term_obs (TAtom (d "a"))) &&
+                                  obs_eqb (term_obs (dfast h3 (TVar 0))) (term_obs (TAtom (d "c")))
+          | _ => false end
+      | _ => false
+      end
+  end.
+
+(* the same program with pyq raising INSTEAD OF its answer number 1 (Native.raising, the predicate of C20's
+   exception_passthrough): the machine code pyrows_at against nquery of the world with `raising (native_rows ..) 1` *)
+Definition ex_ufix_at (name : str) (k : nat) : option ucode :=
+  if str_eqb name (d "pyq") && Nat.eqb k 1 then Some (pyrows_at pyp_rows 1) else None.
+Definition ex_ffix_at (name : str) (k : nat) : option nfun :=
+  if str_eqb name (d "pyq") && Nat.eqb k 1 then Some (raising (native_rows pyp_rows [true; true]) 1) else None.
+Lemma ex_table_at_ok ir dyn : forall name k, orealizes ir dyn ex_ufix_at novar (ex_ufix_at name k) (ex_ffix_at name k).
+Proof.
+  intros name k. unfold ex_ufix_at, ex_ffix_at. destruct (str_eqb name (d "pyq") && Nat.eqb k 1); cbn [orealizes]; [|exact I].
+  apply pyrows_at_realizes.
+Qed.
+Definition refine_example_raising : bool :=
+  match compile_program ex_t with
+  | None => false
+  | Some ir =>
+      let dyn := rows_of ex_db in
+      let big := nquery 20 (mkw ir ex_ffix_at (fun _ => None) dyn) (d "t") [TVar 0; TVar 1] (mkst [] 2) in
+      match w_nexts ir dyn ex_ufix_at novar 2000 20 9 [] (w_query ir dyn ex_ufix_at novar (d "t") [TVar 0; TVar 1] 2) with
+      | Some (hf, IDone, ys, RRaise) =>
+          Nat.eqb (length ys) 2 && Nat.eqb (length hf) 0 && Nat.eqb (length (fst big)) 2 && snd big &&
           forallb (fun p => obs_eqb (OL (map (fun b => OL [onat (fst b); term_obs (snd b)]) (fst p)))
                                     (OL (map (fun b => OL [onat (fst b); term_obs (snd b)]) (sto (snd p)))))
                   (combine ys (fst big))
